@@ -8,7 +8,9 @@ Core-only (links into `oracle_limits`). Mirrors, by hand:
   * `populateConfig` (config.go);
   * what `preSetup` / `newFlowController` / `newStreamsMap` / `connIDManager.Add` / `wire.NewFrameParser` +
     `handleDatagramFrame` / `applyTransportParameters` enforce (`enforced`), all derived from quic.Config and
-    constants — except the connection-ID bound which (after /repo 06daca1) is max(MaxActiveConnectionIDs, advertised).
+    constants — except the connection-ID bound which (after /repo 06daca1) is max(MaxActiveConnectionIDs, advertised)
+    and, for a spec-driven client (after /repo c32d004), the receive window a new stream starts with, which
+    `Conn.newFlowController` takes from the transport parameter advertised for that KIND of stream.
 Units: bytes, counts, milliseconds.
 -/
 import Uquic.Generated.Protocol
@@ -165,22 +167,41 @@ def plainParams (c : Config) : OwnParams :=
 
 /-! ## what is enforced -/
 
-/-- `enforced c cidLimitSet`, `c` the POPULATED Config, `cidLimitSet` the value given to
-    `connIDManager.SetConnectionIDLimit` (the record's active_connection_id_limit for a spec-driven client, 0
-    for the plain client, which never calls it):
-    * connection / stream flow controllers start with `InitialConnectionReceiveWindow` / `InitialStreamReceiveWindow`
-      (preSetup, newFlowController — one value for all three stream kinds);
+/-- the raw per-kind value of the record (what a spec-driven client's `uAdvertisedStreamData.forStream` returns) -/
+def OwnParams.streamData (p : OwnParams) : StreamKind → Int
+  | .bidiLocal => p.initialMaxStreamDataBidiLocal
+  | .bidiRemote => p.initialMaxStreamDataBidiRemote
+  | .uni => p.initialMaxStreamDataUni
+
+/-- `Conn.newFlowController`: the receive window a new stream of kind `k` starts with. `adv` = the record a
+    spec-driven client keeps for this purpose (`none`: the plain client — one Config window for all kinds). -/
+def streamWindow (c : Config) (adv : Option OwnParams) (k : StreamKind) : Int :=
+  match adv with
+  | some p => p.streamData k
+  | none => c.initialStreamReceiveWindow
+
+/-- … and the cap of its auto-tuning: never below the window itself for a spec-driven client -/
+def streamWindowCap (c : Config) (adv : Option OwnParams) (k : StreamKind) : Int :=
+  match adv with
+  | some p => max c.maxStreamReceiveWindow (p.streamData k)
+  | none => c.maxStreamReceiveWindow
+
+/-- `enforced c adv cidLimitSet`, `c` the Config the components are built from, `adv` as in `streamWindow`,
+    `cidLimitSet` the value given to `connIDManager.SetConnectionIDLimit` (the record's active_connection_id_limit
+    for a spec-driven client, 0 for the plain client, which never calls it):
+    * the connection flow controller starts with `InitialConnectionReceiveWindow` (preSetup), a stream flow
+      controller with `streamWindow` (newFlowController);
     * `newStreamsMap` gets `MaxIncomingStreams` / `MaxIncomingUniStreams`;
     * `connIDManager.Add` fails when `len(queue) ≥ max(MaxActiveConnectionIDs, connIDLimit)`: the peer may
       have that many IDs active (the queue excludes the one in use);
     * DATAGRAM: the frame parser knows the type only if `EnableDatagrams`; `handleDatagramFrame` rejects
       frames longer than `wire.MaxDatagramSize`;
     * idle: `applyTransportParameters` starts from `Config.MaxIdleTimeout`. -/
-def enforced (c : Config) (cidLimitSet : Int) : Limits :=
+def enforced (c : Config) (adv : Option OwnParams) (cidLimitSet : Int) : Limits :=
   { connData := c.initialConnectionReceiveWindow
-    streamBidiLocal := c.initialStreamReceiveWindow
-    streamBidiRemote := c.initialStreamReceiveWindow
-    streamUni := c.initialStreamReceiveWindow
+    streamBidiLocal := streamWindow c adv .bidiLocal
+    streamBidiRemote := streamWindow c adv .bidiRemote
+    streamUni := streamWindow c adv .uni
     streamsBidi := c.maxIncomingStreams
     streamsUni := c.maxIncomingUniStreams
     cids := max Protocol.MaxActiveConnectionIDs cidLimitSet
@@ -208,18 +229,23 @@ def LimitsCovered (adv enf : Limits) : Prop :=
 
 instance (a e : Limits) : Decidable (LimitsCovered a e) := by unfold LimitsCovered; exact inferInstance
 
-/-- The repair proposed in fixes/C12-enforce-advertised.diff (`configCoveringAdvertised`): a copy of the
-    populated Config in which every enforced limit is at least the advertised one. -/
+/-- u_connection.go `configCoveringAdvertised`: a copy of the populated Config in which every enforced limit
+    is at least the advertised one. Which fields are taken from the advertised parameters ALONE (exact) is a
+    regenerated shape fact: the two stream-count limits after /repo ad4f2a6, the connection window after /repo
+    c32d004 — whatever the user Config says. -/
 def coverConfig (c : Config) (p : OwnParams) : Config :=
-  let icrw := max c.initialConnectionReceiveWindow p.initialMaxData
+  let icrw := if Limits.specConnWindowExact then p.initialMaxData
+    else max c.initialConnectionReceiveWindow p.initialMaxData
   let isrw := max c.initialStreamReceiveWindow
     (max p.initialMaxStreamDataBidiLocal (max p.initialMaxStreamDataBidiRemote p.initialMaxStreamDataUni))
   { initialConnectionReceiveWindow := icrw
     maxConnectionReceiveWindow := max c.maxConnectionReceiveWindow icrw
     initialStreamReceiveWindow := isrw
     maxStreamReceiveWindow := max c.maxStreamReceiveWindow isrw
-    maxIncomingStreams := max c.maxIncomingStreams p.maxBidiStreamNum
-    maxIncomingUniStreams := max c.maxIncomingUniStreams p.maxUniStreamNum
+    maxIncomingStreams := if Limits.specStreamCountsExact then p.maxBidiStreamNum
+      else max c.maxIncomingStreams p.maxBidiStreamNum
+    maxIncomingUniStreams := if Limits.specStreamCountsExact then p.maxUniStreamNum
+      else max c.maxIncomingUniStreams p.maxUniStreamNum
     enableDatagrams := c.enableDatagrams || decide (p.maxDatagramFrameSize > 0)
     maxIdleTimeout := max c.maxIdleTimeout p.maxIdleTimeout }
 
@@ -231,13 +257,18 @@ def specConfig (user : Config) (own : OwnParams) : Config :=
 
 /-- a spec-driven client: spec parameter list + user Config -/
 def specAdvertised (ps : ParamList) : Limits := advertised (populate ps)
+/-- the per-kind record `newFlowController` consults: present when newUClientConnection recomputes the Config
+    from the advertised parameters AND connection.go's caller of NewStreamFlowController makes the window depend
+    on the stream id (regenerated shape facts) -/
+def specStreamAdv (own : OwnParams) : Option OwnParams :=
+  if Limits.specConfigCoversAdvertised && Limits.streamWindowPerKind then some own else none
 def specEnforced (ps : ParamList) (user : Config) : Limits :=
-  enforced (specConfig user (populate ps)) (populate ps).activeConnectionIDLimit
+  enforced (specConfig user (populate ps)) (specStreamAdv (populate ps)) (populate ps).activeConnectionIDLimit
 def SpecCovered (ps : ParamList) (user : Config) : Prop := LimitsCovered (specAdvertised ps) (specEnforced ps user)
 instance (ps : ParamList) (u : Config) : Decidable (SpecCovered ps u) := by unfold SpecCovered; exact inferInstance
 
 def plainAdvertised (user : Config) : Limits := advertised (plainParams (populateConfig user))
-def plainEnforced (user : Config) : Limits := enforced (populateConfig user) 0
+def plainEnforced (user : Config) : Limits := enforced (populateConfig user) none 0
 
 /-! ## the enforcing checks, as threshold predicates mirrored from the code -/
 
